@@ -19,6 +19,7 @@ Stmt     = ["yield", Struct]
          | ["read", name]
          | ["ret", mode]                     early return / result()
          | ["orphan", Leaf]                  create a future, never yield it
+         | ["syncshared", sid]               shared_task.value(): synchronous wait on a task created elsewhere
          | ["cancelbatch", kind]             cancel the kind's currently collecting batch (user-level cancel())
          | ["syncitem", site, kind, key]     item = request(); item.value()  (flushes its batch directly)
          | ["probe", what]
@@ -27,6 +28,7 @@ Struct   = ["leaf", Leaf] | ["tuple", [Struct]] | ["list", [Struct]]
 Leaf     = ["call", site, nid] | ["shared", sid] | ["item", kind, key]
          | ["dbg", name, key] | ["const", v] | ["err", site, cls]
          | ["lazy", site, "ok"|"raise"] | ["none"] | ["again", i]
+         | ["constexc", site]   ConstFuture whose VALUE is an exception instance
          | ["junk", what]
 Ctx      = ["actx", name] | ["ov", svname, val] | ["attr", name, val]
          | ["nonasync", name]
@@ -44,6 +46,16 @@ class UserErr(Exception):
 
     def __repr__(self):
         return "UserErr(%r)" % (self.tag,)
+
+    # value semantics, so that an exception object travelling as a plain VALUE can be compared
+    def __eq__(self, other):
+        return type(other) is type(self) and other.tag == self.tag
+
+    def __ne__(self, other):
+        return not self.__eq__(other)
+
+    def __hash__(self):
+        return hash(("UserErr", repr(self.tag)))
 
 
 class UserBaseErr(BaseException):
@@ -187,6 +199,9 @@ def exec_block(rt, fr, block):
         elif op == "sync":
             v = rt.sync_call(fr, st)
             fr.received.append(("sync", v))
+        elif op == "syncshared":
+            v = rt.sync_shared(fr, st)
+            fr.received.append(("syncshared", v))
         elif op == "cancelbatch":
             rt.cancel_batch(fr, st)
         elif op == "syncitem":
